@@ -1,7 +1,9 @@
 """C01, C02, C03, C15: the check engine. TLC (CheckCases.tla) enumerates the case space, checks
 the design-level claims and prints the oracle; the harness replays every case on the real engine."""
 import json, os, sys
+import lib
 from lib import *
+from lib import ABORTS
 
 FAMS_QUICK = ["rw", "nest", "plain", "rec", "strictx", "alias"]
 
@@ -83,6 +85,8 @@ def c01(tier):
             for run in range(scheds + 1):
                 r = res.get((gi, wi, run))
                 if r is None:
+                    if ABORTS:
+                        continue
                     raise Inconclusive("missing harness result for group %d" % gi)
                 if r["leak"]:
                     pass  # goroutine accounting is C15's business
@@ -121,3 +125,284 @@ def c01(tier):
 
 if __name__ == "__main__":
     pass
+
+
+def fail_open_known(line, di):
+    """the recorded finding: 'unknown' (limit reached) collapses to not-member and a negation turns it into allowed"""
+    return line["a"][di] == "I" and line["i"][di] != "I" and line["nb"][di] == "0"
+
+
+def c02(tier):
+    ck = Check("C02", tier)
+    binary = build_harness()
+    p = TIERS[tier]
+    defs, groups = oracle(tier, FAMS_QUICK, ck)
+    dmax = p["dmax"]
+    # run A: global depth = dmax, request depths 1..dmax (effective depth = request depth) plus out-of-range requests
+    extra_r = [-3, 0, dmax + 1, dmax + 5]
+    rdA = list(range(1, dmax + 1)) + extra_r
+    resA = run_plain(binary, defs, groups, dmax, rdA, scheds=1)
+    # run B: a lower global depth; every request is clamped to eff(r, g2)
+    g2 = 3
+    rdB = [-2, 0, 1, 2, 3, 4, dmax + 2]
+    resB = run_plain(binary, defs, groups, g2, rdB, scheds=0)
+    known = known_findings("C02")
+    kf = {f["id"]: f for f in known}
+    clamp_cases = 0
+    for gi, g in enumerate(groups):
+        df = defs[g["f"]]
+        for wi in range(len(df["widths"])):
+            for run in (0, 1):
+                r = resA.get((gi, wi, run))
+                if r is None:
+                    if ABORTS:
+                        continue
+                    raise Inconclusive("missing harness result")
+                for qi, q in enumerate(g["q"]):
+                    line = q["w"][wi]
+                    real = r["res"][qi]
+                    for di, d in enumerate(rdA):
+                        ck.evaluations += 1
+                        c = real[di]
+                        e = eff(d, dmax)
+                        if c == "H":
+                            raise Inconclusive("check did not return")
+                        # fail closed: allowed under any limit implies allowed by the unbounded semantics
+                        if c in "IX" and not q["ref"]:
+                            if "C02-unknown-collapse" in kf and fail_open_known(line, e - 1):
+                                ck.known("C02-unknown-collapse", "depth/width cut-off below a negation is answered allowed")
+                            else:
+                                ck.violation("allowed under limits (depth %d, width %d) but denied by RefSem" % (e, df["widths"][wi]),
+                                             dict(case_id(g, wi, qi, d, defs), observed=c, refsem=False, model_asis=line["a"][e - 1], model_3valued=line["i"][e - 1]))
+                        if line["nb"][e - 1] == "0":
+                            ck.nontrivial.add((g["f"], g["st"], tuple(g["s"]), g["o"], qi, e, wi))
+                        # clamp inside one server: out-of-range requests mean the global limit
+                        if d != e:
+                            clamp_cases += 1
+                            same = real[rdA.index(e)]
+                            if c != same and c != line["a"][e - 1]:
+                                ck.violation("request depth %d on a server with limit %d answered %s, but depth %d answers %s" % (d, dmax, c, e, same),
+                                             dict(case_id(g, wi, qi, d, defs), observed=c, expected=same, global_depth=dmax))
+            # clamp across servers: (r, g2) behaves as (eff(r, g2), g) on the same stored state
+            rb = resB.get((gi, wi, 0))
+            ra = resA.get((gi, wi, 0))
+            if rb is None or ra is None:
+                if ABORTS:
+                    continue
+                raise Inconclusive("missing harness result (run B)")
+            for qi, q in enumerate(g["q"]):
+                line = q["w"][wi]
+                for di, d in enumerate(rdB):
+                    ck.evaluations += 1
+                    clamp_cases += 1
+                    e = eff(d, g2)
+                    c = rb["res"][qi][di]
+                    same = ra["res"][qi][rdA.index(e)]
+                    if c != same and c != line["a"][e - 1]:
+                        ck.violation("request depth %d on a server with limit %d answered %s; a server with limit %d answers %s" % (d, g2, c, e, same),
+                                     dict(case_id(g, wi, qi, d, defs), observed=c, expected=same, global_depth=g2))
+                    elif d != e and c == "I":
+                        ck.sample(dict(case_id(g, wi, qi, d, defs), global_depth=g2, effective=e, observed=c))
+    # every recorded witness must still reproduce; otherwise the entry is stale
+    for f in known:
+        if f["id"] not in ck.known_hits:
+            raise Inconclusive("known finding %s did not reproduce on its witness: remove it from known_findings.json" % f["id"])
+    ck.extra["clamp_comparisons"] = clamp_cases
+    ck.rule = ("cases of CheckCases.tla at every depth 1..%d and width, plus out-of-range request depths and a second "
+               "server with global depth %d; non-trivial: the spec says the limits are binding for the case" % (dmax, g2))
+    ck.exhaustive = (p["sample"] == 0)
+    ck.assumptions = ["sqlite in-memory backend only", "attribution of the recorded fail-open finding is by exact agreement with the as-is model (collapse on) and disagreement of the three-valued model"]
+    ck.finish()
+
+
+def c03(tier):
+    ck = Check("C03", tier)
+    binary = build_harness()
+    p = TIERS[tier]
+    sample = 12 if tier == "quick" else 60
+    defs, groups = oracle(tier, ["rw", "nest", "rec", "plain", "strictx"], ck, sample=sample, ords=1)
+    dmax = p["dmax"]
+    rdepths = [3, dmax] if tier == "quick" else [2, 3, 5, dmax]
+    inp = {"defs": defs, "groups": harness_groups(groups), "gdepth": dmax, "rdepths": rdepths, "mode": "fault",
+           "widths": [len(next(iter(defs.values()))["widths"]) - 1]}
+    recs = run_harness(binary, "check", inp)
+    positions = 0
+    for r in recs:
+        g = groups[r["g"]]
+        if r["q"] >= 0:
+            base = r["base"]
+            for kind, s in (("transient", r.get("ft", "")), ("persistent", r.get("fp", "")), ("canceled", r.get("fc", ""))):
+                for k, c in enumerate(s, 1):
+                    ck.evaluations += 1
+                    positions += 1
+                    cid = dict(case_id(g, r["w"], r["q"], r["d"], defs), fault={"k": k, "kind": kind}, fault_free=base, observed=c, calls=r["n"])
+                    if c == "H":
+                        continue  # termination under faults is C15's business
+                    if k <= r["n"] and c != base:
+                        ck.nontrivial.add((r["g"], r["q"], r["d"], kind, k))
+                    if c == "X":
+                        ck.violation("result carries an error and says allowed", cid)
+                    elif c == "I" and base != "I":
+                        ck.violation("storage failure turned a denied check into allowed", cid)
+                    elif c not in ("E", base) and not (c in "NU" and base in "NU"):
+                        ck.violation("result under a storage failure is neither an error nor the fault-free answer", cid)
+                    elif c == "E" and kind == "transient" and len(ck.samples) < 4 and base == "I":
+                        ck.sample(cid)
+        else:
+            base = r["bbase"]
+            for name in ("be", "bg", "br"):
+                for k, s in enumerate(r.get(name, []), 1):
+                    for i, c in enumerate(s):
+                        ck.evaluations += 1
+                        cid = {"family": g["f"], "strict": g["st"], "stored": [defs[g["f"]]["U"][j - 1] for j in g["s"]],
+                               "batch_entry": i, "transport": name, "fault_k": k, "fault_free": base, "observed": s}
+                        if c == "X":
+                            ck.violation("batch entry carries an error and says allowed", cid)
+                        elif c == "!":
+                            pass
+                        elif i < len(base) and c == "I" and base[i] != "I":
+                            ck.violation("storage failure turned a denied batch entry into allowed", cid)
+    ck.extra["fault_positions"] = positions
+    ck.rule = ("for every sampled case the fault-free run is counted (N storage calls), then call k = 1..N+1 fails once, "
+               "persistently, and with context.Canceled; non-trivial: the fault changed the outcome")
+    ck.assumptions = ["faults are injected at the Manager/Traverser interface the engine uses, not inside the SQL driver",
+                      "call numbering follows arrival order under the engine's own concurrency"]
+    ck.finish()
+
+
+def c15(tier):
+    ck = Check("C15", tier)
+    binary = build_harness()
+    p = TIERS[tier]
+    sample = 10 if tier == "quick" else 50
+    fams = ["rw", "nest", "rec", "plain"]
+    defs, groups = oracle(tier, fams, ck, sample=sample, ords=1)
+    dmax = p["dmax"]
+    rdepths = [3, dmax] if tier == "quick" else [2, 4, dmax]
+    wlast = [len(next(iter(defs.values()))["widths"]) - 1]
+    # 1. plain runs: termination and the bound on storage calls
+    res = run_plain(binary, defs, groups, dmax, list(range(1, dmax + 1)), scheds=1, widths=wlast)
+    for (gi, wi, run), r in res.items():
+        g = groups[gi]
+        for qi, q in enumerate(g["q"]):
+            line = q["w"][wi]
+            for di in range(dmax):
+                ck.evaluations += 1
+                if r["res"][qi][di] == "H":
+                    ck.violation("check did not return within 10 s", case_id(g, wi, qi, di + 1, defs))
+                elif r["calls"][qi][di] > line["mc"][di]:
+                    ck.violation("check issued %d storage calls, the exhaustive evaluation of the spec issues at most %d" % (r["calls"][qi][di], line["mc"][di]),
+                                 dict(case_id(g, wi, qi, di + 1, defs), calls=r["calls"][qi][di], bound=line["mc"][di]))
+    # 2. cancellation at every instant
+    inp = {"defs": defs, "groups": harness_groups(groups), "gdepth": dmax, "rdepths": rdepths, "mode": "cancel", "widths": wlast}
+    recs = run_harness(binary, "check", inp)
+    for r in recs:
+        g = groups[r["g"]]
+        line = g["q"][r["q"]]["w"][r["w"]]
+        for k, c in enumerate(r["ca"]):
+            ck.evaluations += 1
+            cid = dict(case_id(g, r["w"], r["q"], r["d"], defs), cancel_before_call=k, observed=c, fault_free=r["base"], calls=r["n"])
+            if 0 < k <= r["n"]:
+                ck.nontrivial.add((r["g"], r["q"], r["d"], k))
+            if c == "H":
+                ck.violation("cancelled check did not return within 10 s", cid)
+            elif k == 0 and c != "E":
+                ck.violation("a check whose context was cancelled before the call did not return an error", cid)
+            elif r["cl"][k] > 0:
+                ck.violation("%d goroutine(s) of the check still alive 5 s after it returned and its context was cancelled" % r["cl"][k],
+                             dict(cid, goroutine=r.get("leaks", "")[:1500]))
+            elif r["cn"][k] > line["mc"][r["d"] - 1]:
+                ck.violation("storage calls exceed the bound", dict(cid, calls=r["cn"][k], bound=line["mc"][r["d"] - 1]))
+            elif 0 < k <= r["n"] and len(ck.samples) < 4:
+                ck.sample(cid)
+    # 3. faults: the check still returns
+    inp = {"defs": defs, "groups": harness_groups(groups), "gdepth": dmax, "rdepths": rdepths[-1:], "mode": "fault", "widths": wlast}
+    recs = run_harness(binary, "check", inp)
+    for r in recs:
+        if r["q"] < 0:
+            continue
+        g = groups[r["g"]]
+        line = g["q"][r["q"]]["w"][r["w"]]
+        for kind in ("ft", "fp", "fc"):
+            for k, c in enumerate(r.get(kind, ""), 1):
+                ck.evaluations += 1
+                if c == "H":
+                    ck.violation("check with failing storage call %d (%s) did not return within 10 s" % (k, kind),
+                                 dict(case_id(g, r["w"], r["q"], r["d"], defs), fault={"k": k, "kind": kind}, calls=r["n"]))
+        for k, n in enumerate(r.get("fn", []), 1):
+            if n > line["mc"][r["d"] - 1] + 0:
+                ck.violation("storage calls under a fault exceed the bound", dict(case_id(g, r["w"], r["q"], r["d"], defs), calls=n, bound=line["mc"][r["d"] - 1]))
+    checkgroup_model(ck, tier)
+    cg_traces(ck, binary, defs, groups[: (40 if tier == "quick" else 200)], dmax, tier)
+    ck.rule = ("sampled CheckCases.tla cases; context cancelled before the call and at the gate before every storage call k, "
+               "every storage call failing; goroutine dump after return; non-trivial: cancellation landed while the check was running")
+    ck.assumptions = ["'returns' is decided with a 10 s grace period, 'no goroutine remains' by goroutine dumps polled for 5 s",
+                      "the bound on storage calls is the call count of the spec's exhaustive (no short-circuit) evaluation"]
+    ck.finish()
+
+
+def checkgroup_model(ck, tier):
+    """exhaustive TLC runs of the checkgroup protocol: safety invariants and the leak (liveness) property"""
+    for nadds in ([2, 3] if tier == "quick" else [2, 3, 4]):
+        for ucf in ("TRUE", "FALSE"):
+            cfg = write_cfg(["NAdds = %d" % nadds, "UseCheckFunc = %s" % ucf],
+                            invariants=["TypeOK", "AtMostOneInFlight", "ResultSound", "NoDecisionFromForeignCancel", "DrainExact"],
+                            properties=["NoLeak"])
+            r = tlc("Checkgroup", "cg.cfg", files={"cg.cfg": cfg}, workers=4, heap="2g", want_lines=False)
+            ck.add_tlc(r)
+            if r.violation:
+                ck.violation("Checkgroup.tla (NAdds=%d, CheckFunc=%s): %s" % (nadds, ucf, r.violation), {"tlc": r.raw_tail[-3000:]})
+
+
+def validate_cg_trace(ck, path_or_text, label, expect_accept=True):
+    cfg = ('SPECIFICATION Spec\nCONSTANT TraceFile = "cg.ndjson"\nINVARIANT AtMostOneInFlight\n'
+           'POSTCONDITION Accepted\nCHECK_DEADLOCK FALSE\n')
+    r = tlc("TraceCheckgroup", "tcg.cfg", files={"tcg.cfg": cfg, "cg.ndjson": path_or_text}, workers=1, heap="2g",
+            want_lines=False)
+    return r.ok
+
+
+def cg_traces(ck, binary, defs, groups, dmax, tier):
+    sc = scratch()
+    tpath = os.path.join(sc, "cgtrace")
+    inp = {"defs": defs, "groups": harness_groups(groups), "gdepth": dmax, "rdepths": [dmax], "mode": "trace",
+           "widths": [len(next(iter(defs.values()))["widths"]) - 1]}
+    recs = run_harness(binary, "check", inp, extra=["-verif.trace", tpath])
+    ntr = sum(r.get("traces", 0) for r in recs)
+    nev = sum(r.get("events", 0) for r in recs)
+    text = ""
+    import glob as _g
+    for f in sorted(_g.glob(tpath + ".*")):
+        text += open(f).read()
+    if ntr == 0:
+        raise Inconclusive("no checkgroup traces recorded (hook H2 missing?)")
+    lines = text.splitlines()
+    cap = 150000 if tier == "quick" else 600000
+    if len(lines) > cap:      # cut at a trace boundary
+        i = cap
+        while i < len(lines) and '"ev":"start"' not in lines[i]:
+            i += 1
+        lines = lines[:i]
+        text = "\n".join(lines) + "\n"
+        ntr = sum(1 for l in lines if '"ev":"start"' in l)
+    ok = validate_cg_trace(ck, text, "recorded")
+    ck.traces += ntr
+    ck.extra["checkgroup_trace_events"] = len(lines)
+    if not ok:
+        ck.violation("a recorded checkgroup consumer log is not a behaviour of Checkgroup.tla's consumer", {"trace_events": len(lines)})
+        return
+    ck.sample({"checkgroup_trace_head": [json.loads(l) for l in lines[:8]]})
+    # the binding is demonstrated: a corrupted counter and a dropped event must be rejected
+    import random
+    rnd = random.Random(seed())
+    exits = [i for i, l in enumerate(lines) if '"ev":"exit"' in l]
+    results = [i for i, l in enumerate(lines) if '"ev":"result"' in l]
+    i = rnd.choice(exits)
+    ev = json.loads(lines[i]); ev["total"] += 1
+    bad1 = lines[:i] + [json.dumps(ev)] + lines[i + 1:]
+    j = rnd.choice(results)
+    bad2 = lines[:j] + lines[j + 1:]
+    for name, bl in (("corrupted exit counter", bad1), ("dropped result event", bad2)):
+        if validate_cg_trace(ck, "\n".join(bl) + "\n", name):
+            raise Inconclusive("self-test failed: trace with %s was accepted" % name)
+    ck.extra["trace_selftests_rejected"] = 2
